@@ -9,6 +9,7 @@ rk4
 implicit or backwardeuler
 trapezoidal or cranknicolson
 """
+import copy
 import math
 import sys
 import time
@@ -292,8 +293,8 @@ class timemodel(_coreiterative):
             Qnn = self.Qn.copy()
             if isave < nsave: # specific step to save result and go back to Qn
                 while (isave < nsave) and (self.Qn.time+mindtloc >= tsave[isave]): # every time to save within this step
-                    # compute smaller step with same integrator
-                    self.step(Qnn, tsave[isave]-self.Qn.time)
+                    # compute smaller step with same integrator (on a copy: the state kept by the integrator, e.g. multistep history, must not see this side step)
+                    copy.copy(self).step(Qnn, tsave[isave]-self.Qn.time)
                     Qnn.it = self._itstart + self._nit
                     results.append(Qnn)
                     if verbose:
